@@ -25,6 +25,8 @@ pub fn check(tier: Tier) -> Check {
         parts.push(Part::new("C11/near-wrap", json!({"depth": tier.pick(5, 6) - k as usize + 1, "r": 1, "refusals": true}), k, tier.pick(30, 600)));
         parts.push(Part::new("C11/near-wrap", json!({"depth": tier.pick(4, 5) - k as usize + 1, "m": 12, "refusals": true}), k, tier.pick(30, 600)));
     }
+    // inbound QoS 1 / 2 messages whose identifiers lie around the client's own outstanding ones
+    parts.push(Part::new("C11/near-wrap", json!({"depth": tier.pick(4, 5), "inbound": true}), 0, tier.pick(30, 600)));
     // one long-lived handle used for one operation after the other, and clones taken from it in between
     // (whatever an implementation keeps inside a handle, or copies on clone, must not repeat identifiers)
     parts.push(Part::new("C11/near-wrap", json!({"depth": tier.pick(4, 5), "m": 13, "refusals": true, "worker": true}), 0, tier.pick(30, 600)));
@@ -316,6 +318,15 @@ pub fn scenario(name: &str, params: &Value) -> Scenario {
         let evs = |s: &Sys| {
             let mut e = start_events(s, &specs, 4, 3);
             e.extend(broker_acks(s, false, false));
+            if s.params["inbound"].as_bool().unwrap_or(false) {
+                // the broker's own QoS 1 / QoS 2 messages use the same 16-bit values in a namespace of
+                // their own: whatever identifiers arrive, the client's allocation is not their business
+                let n = s.transitions;
+                for pid in [65532u16, 65533, 65534, 65535, 1, 2] {
+                    e.push(Ev::Deliver(inbound(2, false, pid, &[], &format!("in{}", n))));
+                }
+                e.push(Ev::Deliver(inbound(1, false, 65534, &[], &format!("in{}", n))));
+            }
             e
         };
         drive(&mut sys, chz, depth, &devs, &evs);
